@@ -544,6 +544,7 @@ func overloadCases() []*ProgCase {
 	env.Put("g3", &ref.V{T: ref.TFun([]*ref.Ty{ref.TStr, ref.TStr}, ref.TBool)})
 	shL, shM := ref.TList(ref.TNum), ref.TMap(ref.TStr, ref.TNum)
 	// variables bound to one type object share its node in the type environment
+	env.Put("mo", ref.VJust(oAB, ref.VObj(ref.TObj(ref.F("b", ref.TStr), ref.F("a", ref.TNum)), ref.VStr("x"), ref.VNum(1))))
 	env.PutTyped("ys", shL, ref.VList(ref.TNum, ref.VNum(5)))
 	env.PutTyped("ys2", shL, ref.VList(ref.TNum, ref.VNum(6)))
 	env.PutTyped("ms", shM, ref.VMap(ref.TStr, ref.TNum, ref.KV{K: ref.VStr("k"), V: ref.VNum(1)}))
@@ -580,8 +581,21 @@ func overloadCases() []*ProgCase {
 		mk("pk2", []*ref.Ty{shL, shL, a}, ref.TStr, "pk2"),
 		mk("pk3", []*ref.Ty{shM, a, shM}, ref.TStr, "pk3"),
 		mk("pk4", []*ref.Ty{oAB, oAB, a, a}, ref.TStr, "pk4"),
+		// monomorphic signatures with objects below one-field wrappers, lists and maps:
+		// the call site writes the inner fields in another order
+		mk("np1", []*ref.Ty{ref.TObj(ref.F("w", oAB))}, ref.TStr, "np1"),
+		mk("np2", []*ref.Ty{ref.TObj(ref.F("u", ref.TObj(ref.F("v", oAB))))}, ref.TStr, "np2"),
+		mk("np3", []*ref.Ty{ref.TList(oAB)}, ref.TStr, "np3"),
+		mk("np4", []*ref.Ty{ref.TMap(ref.TStr, ref.TObj(ref.F("w", oAB)))}, ref.TStr, "np4"),
+		mk("np5", []*ref.Ty{ref.TObj(ref.F("w", oAB), ref.F("z", ref.TNum)), ref.TMaybe(oAB)}, ref.TStr, "np5"),
 	}
 	n := func(i int) *ref.E { return ref.Num(fmt.Sprint(i), float64(i)) }
+	abLit := func(swapped bool) *ref.E { // {a: 1, b: "x"} in either field order
+		if swapped {
+			return ref.Obj([]string{"b", "a"}, []*ref.E{ref.Str("x"), n(1)})
+		}
+		return ref.Obj([]string{"a", "b"}, []*ref.E{n(1), ref.Str("x")})
+	}
 	bot := ref.Subscript(ref.List(), n(0))
 	progs := []*ref.E{
 		ref.Call("g", ref.List(n(1))), ref.Call("g", n(1)), ref.Call("g", ref.Str("x")), ref.Call("g", ref.List()), ref.Call("g", bot),
@@ -606,6 +620,12 @@ func overloadCases() []*ProgCase {
 		ref.Call("pk3", ref.Ident("ms"), n(1), ref.Ident("ms")), ref.Call("pk3", ref.Ident("ms"), ref.Str("s"), ref.Map([]*ref.E{ref.Str("k")}, []*ref.E{n(1)})), ref.Call("pk3", ref.Ident("ms"), ref.Ident("ms"), ref.Ident("ms")),
 		ref.Call("pk4", ref.Ident("o"), ref.Ident("o"), n(1), n(2)), ref.Call("pk4", ref.Ident("o"), ref.Obj([]string{"b", "a"}, []*ref.E{ref.Str("x"), n(1)}), ref.Str("s"), ref.Str("t")),
 		ref.Call("pk4", ref.Ident("o"), ref.Ident("o"), n(1), ref.Str("s")), ref.Call("pk4", ref.Ident("o"), ref.Ident("o"), ref.Ident("o"), ref.Ident("o")),
+		ref.Call("np1", ref.Obj([]string{"w"}, []*ref.E{abLit(false)})), ref.Call("np1", ref.Obj([]string{"w"}, []*ref.E{abLit(true)})), ref.Call("np1", ref.Obj([]string{"w"}, []*ref.E{ref.Ident("o")})),
+		ref.Call("np2", ref.Obj([]string{"u"}, []*ref.E{ref.Obj([]string{"v"}, []*ref.E{abLit(true)})})), ref.Call("np2", ref.Obj([]string{"u"}, []*ref.E{ref.Obj([]string{"v"}, []*ref.E{abLit(false)})})),
+		ref.Call("np3", ref.List(abLit(true))), ref.Call("np3", ref.List(abLit(false), abLit(true))), ref.Call("np3", ref.List(ref.Ident("o"), abLit(true))),
+		ref.Call("np4", ref.Map([]*ref.E{ref.Str("k")}, []*ref.E{ref.Obj([]string{"w"}, []*ref.E{abLit(true)})})),
+		ref.Call("np5", ref.Obj([]string{"z", "w"}, []*ref.E{n(1), abLit(true)}), ref.Ident("mo")), ref.Call("np5", ref.Obj([]string{"w", "z"}, []*ref.E{abLit(false), n(1)}), ref.Ident("mo")),
+		ref.Call("np1", ref.Obj([]string{"w"}, []*ref.E{ref.Obj([]string{"b", "a"}, []*ref.E{n(1), ref.Str("x")})})),
 		// documented corner cases of the built-ins
 		ref.Call("len", ref.List()), ref.CallF(ref.FInfix, "==", ref.List(), ref.List()), ref.CallF(ref.FInfix, "==", ref.List(n(1)), ref.List()),
 		ref.CallF(ref.FInfix, "==", ref.List(), ref.List(n(1))), ref.Call("union", ref.List(n(1)), ref.List()), ref.Call("union", ref.List(), ref.List(n(1))),
@@ -752,6 +772,7 @@ func init() {
 			stream(c, "welltyped", c.Pick(6000, 250000), opt, user, 0, both)
 			stream(c, "mutant", c.Pick(12000, 400000), opt, user, 1.0, both)
 			fixedCases(c, overloadCases(), both)
+			fixedCases(c, deepMismatchCases(), func(c *run.Ctx, o *ProgObs) { oracleC05(c, o); oracleC04(c, o) })
 			fixedCases(c, sharedNodeCases(), both)
 			fixedCases(c, permCases(), oracleC05)
 			fixedCases(c, boundaryCases(), oracleC05)
